@@ -415,3 +415,6 @@ func DeepCopy(v interface{}) interface{} {
 	}
 	return v
 }
+
+// Num converts a generic JSON number to float64.
+func Num(v interface{}) (float64, bool) { return num(v) }
